@@ -595,6 +595,11 @@ def reuse_case(rng, insts, tags):
             case['plays'][1]['stop'] = stop2
             case['plays'].append({'at': stop2 + rng.choice([0, 0.5]),
                                   'stop': None})
+        if rng.random() < 0.3:
+            # the last player is stopped as well: nothing outlasts the pending
+            # wake-up of a stopped player (total duration only bounded)
+            last = case['plays'][-1]
+            last['stop'] = last['at'] + (2 * rng.randint(0, steps) + 1) / 32.0
     if case.get('plays'):
         case['where'] = 'routine-system'
     return case
